@@ -195,6 +195,20 @@ def oracle_expm(case, R):
             cmp(e3, E, tolE, sE, "expmint_E")
             cmp(i3, I1, tolI1, sI1, "expmint_I1")
             cmp(j3, I2, tolI2, sI2, "expmint_I2")
+            # memory layout is not an input: the same numbers held column-major give the same I2 - also where I2
+            # itself is covered by known finding F11 (singular A: both layouts run the same power series)
+            if singular or not f11:
+                with warnings.catch_warnings():
+                    warnings.simplefilter("ignore")
+                    try:
+                        _, _, jF = expmint.expmint(np.asfortranarray(np.array(Afloat, dtype=float)), h, geti2=True)
+                        _, _, jC = expmint.expmint(np.ascontiguousarray(np.array(Afloat, dtype=float)), h, geti2=True)
+                        dlay = float(np.abs(np.asarray(jF) - np.asarray(jC)).max())
+                        R.check(dlay <= 1e-6 * max(float(np.abs(np.asarray(jC)).max()), sI2),
+                                "expmint_I2_depends_on_memory_layout",
+                                f"{info}: column-major vs row-major A differ by {dlay:.3e} (scale {sI2:.3e})")
+                    except RuntimeError:
+                        pass
         except RuntimeError as ex:
             R.fail("expmint_I2_runtimeerror", f"{info} {ex}")
     if any("power series" in str(w.message) for w in wl):
